@@ -11,7 +11,7 @@ CHECKS = {
                 text="differential execution of generated programs (exhaustive over single-opcode forms, sampled pairs/random programs) on all three executable x86 targets against the emulator; held means no destination byte or accumulator differed on the executions listed in the evidence",
                 note="trusts the host CPU and the harness (generator, arena, comparison); emulator correctness itself is C02"),
     "C02": dict(engine="emu+exec", cat="exploration", tech="runtime monitoring of the emulator against an independent executable reference over exhaustive/boundary operand sweeps",
-                text="every opcode emulated on exhaustive 8/16-bit operand values (thorough: all 16-bit pairs), boundary-crossed 32/64-bit values, all chunk positions and prefixes, compared with an independently written reference; multi-instruction programs against a whole-program interpreter",
+                text="every opcode emulated on exhaustive 8/16-bit operand values (thorough: all 16-bit pairs), boundary-crossed 32/64-bit values, all chunk positions and prefixes, compared with an independently written reference; multi-instruction programs against a whole-program interpreter; float/double opcodes (single forms, pairs, random programs on structured operands) emulated vs the reference in the default floating-point environment",
                 note="trusts harness/ref.c as the reading of the opcode reference (deviations from the doc table's pseudo-code are listed in DESIGN.md)"),
     "C03": dict(engine="exec", cat="exploration", tech="guard-page and canary monitoring of real executions (PROT_NONE pages flush against every array, read-only sources)",
                 text="every array flush against an inaccessible page on either side, rows separated by unmapped pages or canaried gaps, sources read-only; native and emulated executions observed for faults and canary damage",
@@ -20,7 +20,7 @@ CHECKS = {
                 text="all native executions of generated programs (incl. many-array programs forcing callee-saved registers) run through a trampoline that seeds and compares machine state",
                 note="System V AMD64 only; memory writes outside arrays/executor observed via canaries and guard pages around arrays and executor"),
     "C18": dict(engine="exec", cat="exploration", tech="runtime differential monitoring of float opcodes: native vs emulator vs independent IEEE reference on structured operand sets",
-                text="bit-exact three-way comparison (native sse/avx, emulation, reference) of all float/double opcodes on structured operands, with the tolerances the statement grants (NaN class, min/max of equal operands); plus the gcc-compiled generated C (backup, Orc-free) and the JIT wrapper of every float single-opcode form on wide finite operands",
+                text="bit-exact three-way comparison (native sse/avx, emulation, reference) of all float/double opcodes on structured operands, with the tolerances the statement grants (NaN class, min/max of equal operands); NaN propagation of single-instruction arithmetic programs checked lane by lane; plus the gcc-compiled generated C (backup, Orc-free) and the JIT wrapper of every float single-opcode form on wide finite operands",
                 note="reference uses host IEEE arithmetic in round-to-nearest; generated C of multi-instruction programs is C04's"),
     "C11": dict(engine="asmdump+asmcmp+exec", cat="exploration", tech="runtime monitoring of emitted machine code: objdump disassembly re-assembled by GNU as under the ISA the flags allow, plus native execution under feature-flag subsets",
                 text="every single-opcode program under every SSE/MMX feature subset (plus sampled multi-instruction programs) is compiled; the bytes Orc emitted are disassembled and re-assembled under `.arch` restrictions matching the flags; each subset is also executed against emulation",
@@ -32,7 +32,7 @@ CHECKS = {
                 text="every single-opcode form (~2000) and random int/float/mixed programs go through orcc; the emitted C is compiled with gcc and run as executor-based backup (ORC_CODE=backup) and as Orc-free DISABLE_ORC build; destination bytes with canary margins, accumulators and sources are compared with the reference interpreter; generate-emulation output is token-compared with the checked-in emulator",
                 note="finite float operands only (C18 grants bit-exactness for those); gcc -O2 only; the reference interpreter is tied to emulation by C02"),
     "C06": dict(engine="fault", cat="fault_enumeration", tech="fault injection at the libc boundary (--wrap=mkstemp,ftruncate,mmap) enumerated by call index, ORC_CODE modes and program kinds; results compared with emulation; fd growth and ASan monitors",
-                text="every single failure position (and pairs; thorough: all pairs) of the mkstemp/ftruncate/mmap calls liborc makes, and the permanent failure modes, crossed with ORC_CODE settings, backup registration, code-only executors and three program kinds, each in its own process",
+                text="every single failure position (and pairs; thorough: all pairs) of the mkstemp/ftruncate/mmap calls liborc makes, and the permanent failure modes, crossed with ORC_CODE settings, backup registration, code-only executors, four program kinds (incl. a recompile history) and two-dimensional programs, each in its own process; plus runs that keep 1500 programs alive so that code memory must grow while the OS refuses; hangs confirmed by a second longer run",
                 note="only the calls code memory uses are failed; malloc failure is not injected"),
     "C07": dict(engine="orccgen+orccdrv+memfn", cat="exploration", tech="end-to-end runtime monitoring of orcc output: generated .orc -> real orcc in 11 option sets -> gcc -> functions called through their prototypes in JIT/backup/emulate/DISABLE_ORC modes and from concurrent threads under TSan, compared with a reference interpreter",
                 text="every eighth batch of the ~2000 single-opcode forms plus random functions (thorough: all) x 11 orcc configurations x 4 build/run modes called through the generated C prototype with all parameter classes, strides, accumulators, n, m; concurrent first calls under ThreadSanitizer; orcc --test output compiled and run; orc_memcpy/orc_memset against memcpy/memset for all small lengths and alignments; repository .orc corpus compiled in every configuration",
@@ -41,7 +41,7 @@ CHECKS = {
                 text="many fresh processes per scenario (concurrent orc_init, concurrent compiles on different programs, shared compiled function, take_code/free against compiles, once-guarded first calls) under TSan with randomised delays at the yield hook; report blocks counted and deduplicated, results compared with emulation",
                 note="TSan sees only the interleavings the runs produced; distinct orderings observed are reported in the evidence"),
     "C05": dict(engine="api", cat="exploration", tech="ASan/UBSan-instrumented execution of the compiler on generated valid, invalid and over-limit programs for all targets, with a result-classification monitor and a watchdog",
-                text="about 500k (quick) compiles of valid, mutated and over-limit programs for all eight registered targets and several flag sets under address/UB sanitizers; after every compile the harness checks the three-way result contract and emulates non-fatal programs",
+                text="about 500k (quick) compiles of valid, mutated and over-limit programs for all eight registered targets and several flag sets under address/UB sanitizers; after every compile the harness checks the three-way result contract and emulates non-fatal programs; includes every opcode with x2/x4 prefix on operands of exactly the multiplied sizes (also beyond 8 bytes)",
                 note="sanitizers see only heap/stack/global red-zone and array-subscript violations; bounded time is restated as a 240 s per-case watchdog"),
     "C13": dict(engine="api", cat="exploration", tech="runtime round-trip monitoring (encode, decode, field comparison, re-encode, differential emulation)",
                 text="about 180k (quick) generated programs incl. boundary encodings are serialised and reconstructed; all public fields, the second encoding and emulation results are compared; run with release and ASan builds",
@@ -53,10 +53,10 @@ CHECKS = {
                 text="each generated program is rendered four ways (formatting noise, CRLF, literal spellings, constants as in-place literal operands) and every parse must be error free and equal to the API-built program",
                 note="printer covers integer/hex literal spellings; programs writing a destination twice are outside the text format"),
     "C16": dict(engine="api", cat="exploration", tech="ASan + LeakSanitizer over random legal lifecycle sequences driven by an ownership model, with heap-growth measurement",
-                text="80k random legal lifecycle sequences under ASan, repeated under LeakSanitizer in three environments, plus a K/4K iteration heap growth comparison",
+                text="80k random legal lifecycle sequences (one program in six is 12-40 instructions long) under ASan, repeated under LeakSanitizer in three environments, plus a K/4K iteration heap growth comparison",
                 note="legality model is the harness'; only leaks reachable at exit or growth visible in mallinfo2 are seen"),
     "C17": dict(engine="api", cat="exploration", tech="runtime comparison of repeated compilations across histories, code placements, reset and processes/debug levels",
-                text="every program compiled twice with different code-memory history and placement, after reset, and in fresh processes under three debug levels; bytes, listing and result compared for all eight targets",
+                text="every program compiled twice with different code-memory history and placement, after reset, and in fresh processes under three debug levels; bytes, listing and result compared for all eight targets; repeat runs of the same code on the same inputs through an executor before and after it was used for a larger n",
                 note="names fixed by the harness; run repeatability is observed under C01"),
     "C20": dict(engine="api", cat="exploration", tech="runtime monitoring of extension registration scenarios (call counters, rule identity log, before/after snapshots) in fresh processes",
                 text="32 (quick) / 96 (thorough) registration scenarios x 2 builds, each in its own process: extension opcode sets (incl. set names extending 'sys' or an earlier set) emulated and natively compiled against their own reference, rule sets with satisfied/unsatisfied/mixed required flags, rule precedence logged, built-in programs compared before/after",
